@@ -66,6 +66,46 @@ impl<'src, I: Input<'src, Token = char>> Inspector<'src, I> for Insp {
     }
 }
 
+/// Token-agnostic logical step counter (`on_token + on_save + on_rewind`) with a budget; used for
+/// byte / grapheme / tracked-token inputs where `Insp` (a fold over `char`s) does not apply.
+#[derive(Clone, Debug, Default)]
+pub struct Steps {
+    pub steps: Cell<u64>,
+    pub budget: u64,
+    pub tokens: u64,
+}
+
+impl Steps {
+    pub fn with_budget(budget: u64) -> Steps {
+        Steps { budget, ..Default::default() }
+    }
+    #[inline]
+    fn step(&self) {
+        let s = self.steps.get() + 1;
+        self.steps.set(s);
+        if self.budget != 0 && s > self.budget {
+            std::panic::resume_unwind(Box::new(StepBudgetExceeded));
+        }
+    }
+}
+
+impl<'src, I: Input<'src>> Inspector<'src, I> for Steps {
+    type Checkpoint = ();
+    #[inline]
+    fn on_token(&mut self, _token: &I::Token) {
+        self.tokens += 1;
+        self.step();
+    }
+    #[inline]
+    fn on_save<'parse>(&self, _cursor: &Cursor<'src, 'parse, I>) -> Self::Checkpoint {
+        self.step();
+    }
+    #[inline]
+    fn on_rewind<'parse>(&mut self, _marker: &Checkpoint<'src, 'parse, I, Self::Checkpoint>) {
+        self.step();
+    }
+}
+
 #[derive(Clone, Debug, PartialEq, Eq)]
 pub struct RProbe {
     pub id: u32,
